@@ -113,6 +113,7 @@ func (e *Engine) invoke(st *St, recv *IfaceV, m *types.Func, args []Value, c *ss
 			return e.callStatic(st, fn, full, nil, c)
 		}
 		sub := &St{pc: g, heap: st.heap.child()}
+		e.splits++
 		v := e.callStatic(sub, fn, full, nil, c)
 		brs = append(brs, branchRes{sub, v})
 	}
@@ -138,6 +139,7 @@ func (e *Engine) callFuncV(st *St, fv *FuncV, args []Value, c *ssa.CallCommon) V
 	var sig *types.Signature
 	for _, a := range live {
 		sub := &St{pc: e.S.And(st.pc, a.G), heap: st.heap.child()}
+		e.splits++
 		v := e.callStatic(sub, a.Fn, args, a.Bind, c)
 		brs = append(brs, branchRes{sub, v})
 		sig = a.Fn.Signature
@@ -243,6 +245,13 @@ func (e *Engine) builtin(st *St, name string, args []Value, c *ssa.CallCommon) V
 		}
 		return r
 	case "recover":
+		if u := e.panicking; u != nil {
+			e.panicking = nil
+			if iv, ok := u.val.(*IfaceV); ok {
+				return iv
+			}
+			return e.constStringIface(u.msg)
+		}
 		return &IfaceV{Alts: []IfaceAlt{{G: e.S.True}}}
 	}
 	e.unsupported("builtin " + name)
